@@ -5,20 +5,21 @@
 set -u
 SRC="$1"; ID="$2"; shift 2; PROPS="$*"
 export GOFLAGS=-mod=mod GOPROXY=off GOSUMDB=off GOTOOLCHAIN=local
+DEMOFLAGS=""; case "$PROPS" in *C19*) DEMOFLAGS="-race";; esac
 WT=/tmp/wt/confirm-$ID
 git -C /repo worktree remove --force "$WT" 2>/dev/null
 git -C /repo worktree add -q --detach "$WT" HEAD || exit 3
 res() { echo "$1"; }
 cd "$WT"
 cp "$SRC/demo_test.go" ./zz_demo_test.go
-clean_demo=$(go test -vet=off -count=1 -run 'TestSeeded' . 2>&1 | tail -1)
+clean_demo=$(go test $DEMOFLAGS -vet=off -count=1 -run 'TestSeeded' . 2>&1 | tail -1)
 rm -f zz_demo_test.go
 if ! git apply "$SRC/patch.diff" 2>/tmp/wt/apply.err; then
   echo "RESULT $ID: patch does not apply to HEAD: $(head -2 /tmp/wt/apply.err)"; cd /; git -C /repo worktree remove --force "$WT"; exit 4
 fi
 suite=$(go build ./... 2>&1 | tail -1; go test -vet=off -count=1 . 2>&1 | tail -1)
 cp "$SRC/demo_test.go" ./zz_demo_test.go
-mut_demo=$(go test -vet=off -count=1 -run 'TestSeeded' . 2>&1 | tail -1)
+mut_demo=$(go test $DEMOFLAGS -vet=off -count=1 -run 'TestSeeded' . 2>&1 | tail -1)
 cd /; git -C /repo worktree remove --force "$WT"
 echo "  clean demo : $clean_demo"
 echo "  suite w/mut: $suite"
